@@ -222,10 +222,53 @@ pub fn inputs(tier: Tier) -> Vec<(String, &'static str)> {
             v.push((format!("rule R {{ when A.b == {}{} then A.c = 2; }}", a, b), "utf8_short"));
         }
     }
+    // 5. arithmetic: operand / operator strings for the evaluator (zero, extreme, negative, float, string, field and
+    //    missing-field operands; every operator between every pair, and chains of two operators)
+    let operands: [&str; 16] = ["0", "1", "-1", "7", "2.5", "0.0", "9223372036854775807", "-9223372036854775808", "x", "z", "m", "neg", "s", "f0", "Order.quantity", "nope"];
+    let small: [&str; 8] = ["0", "7", "-1", "2.5", "z", "m", "neg", "s"];
+    let ops = ["+", "-", "*", "/", "%"];
+    for a in &operands {
+        v.push((a.to_string(), "arithmetic"));
+        v.push((format!("-{}", a), "arithmetic"));
+        v.push((format!("({})", a), "arithmetic"));
+        for o in &ops {
+            v.push((format!("{}{}", a, o), "arithmetic"));
+            v.push((format!("{}{}", o, a), "arithmetic"));
+            for b in &operands {
+                v.push((format!("{} {} {}", a, o, b), "arithmetic"));
+                v.push((format!("{}{}{}", a, o, b), "arithmetic"));
+                v.push((format!("({} {} {})", a, o, b), "arithmetic"));
+            }
+        }
+    }
+    let (ta, tc): (&[&str], &[&str]) = if quick { (&small, &small) } else { (&operands, &operands) };
+    for a in ta {
+        for o1 in &ops {
+            for b in &operands {
+                for o2 in &ops {
+                    for c in tc {
+                        v.push((format!("{} {} {} {} {}", a, o1, b, o2, c), "arithmetic"));
+                        if !quick || (*o1 == "%" || *o2 == "%" || *o1 == "/" || *o2 == "/") {
+                            v.push((format!("({} {} {}) {} {}", a, o1, b, o2, c), "arithmetic"));
+                            v.push((format!("{} {} ({} {} {})", a, o1, b, o2, c), "arithmetic"));
+                        }
+                    }
+                }
+            }
+        }
+    }
     // de-duplicate, keep order
     let mut seen = BTreeSet::new();
     v.retain(|(s, _)| seen.insert(s.clone()));
     v
+}
+
+fn set_arith_facts(facts: &Facts) {
+    facts.set("z", Value::Integer(0));
+    facts.set("m", Value::Integer(i64::MIN));
+    facts.set("neg", Value::Integer(-1));
+    facts.set("s", Value::String("abc".to_string()));
+    facts.set("f0", Value::Number(0.0));
 }
 
 fn tier_of() -> Tier {
@@ -246,6 +289,7 @@ pub fn child(spec: &str) {
     let mut o = std::collections::HashMap::new();
     o.insert("b".to_string(), Value::Integer(1));
     facts.set("A", Value::Object(o));
+    set_arith_facts(&facts);
     isolate::child_loop(&cs, 8, |k| {
         let input = &ins[k].0;
         let mut panics = vec![];
@@ -304,7 +348,9 @@ pub fn run(opts: &Opts) -> Vec<Report> {
             Outcome::Abort(m) => rep.violation(Violation { class: "process_aborted".into(), detail: format!("{} (stack overflow on an 8 MiB stack?) on {:?} ({} bytes)", m, truncate(&ins[k].0), ins[k].0.len()), tags: vec![ins[k].1.to_string()], case: case(None) }),
         }
     }
-    if done.len() != n {
+    if let Some(t) = isolate::truncated() {
+        rep.cap_hit = Some(t);
+    } else if done.len() != n {
         rep.notes.push(format!("MACHINERY: {} of {} inputs produced no result", n - done.len(), n));
     }
     let distinct: BTreeSet<u64> = ins.iter().map(|(s, _)| hstr(s)).collect();
@@ -316,7 +362,7 @@ pub fn run(opts: &Opts) -> Vec<Report> {
     rep.notes.push(format!("slowest single call: {:.2} s", slowest));
     rep.sample(json!({"input": ins[n / 3].0, "family": ins[n / 3].1}));
     rep.sample(json!({"input": ins[2 * n / 3].0, "family": ins[2 * n / 3].1}));
-    rep.bound = format!("{} distinct inputs x {} entry points: all token strings (len <= {} over 24 tokens, <= {} over 12) bare and in 3 holes of a rule skeleton; every 1-edit neighbour (truncation, token deletion/duplication/insertion, multi-byte insertion) of {} seeds; depth families n in 1..32, 48, 64, 128..4090 (balanced nesting <= 32); all strings of <= 2 scalars over 40 values; watchdog {:?} per input, 8 MiB stack", n, SUBJECTS.len(), if opts.tier == Tier::Quick { 3 } else { 4 }, if opts.tier == Tier::Quick { 4 } else { 5 }, 11, timeout);
+    rep.bound = format!("{} distinct inputs x {} entry points: all token strings (len <= {} over 24 tokens, <= {} over 12) bare and in 3 holes of a rule skeleton; every 1-edit neighbour (truncation, token deletion/duplication/insertion, multi-byte insertion) of {} seeds; depth families n in 1..32, 48, 64, 128..4090 (balanced nesting <= 32); all strings of <= 2 scalars over 40 values; arithmetic: every operator between every pair of 16 operands (zero, extremes, negative, float, string, integer-zero / i64::MIN / missing fields) and two-operator chains with both parenthesisations; watchdog {:?} per input, 8 MiB stack", n, SUBJECTS.len(), if opts.tier == Tier::Quick { 3 } else { 4 }, if opts.tier == Tier::Quick { 4 } else { 5 }, 11, timeout);
     rep.assumptions.push("a case is non-trivial by construction (each input is distinct and goes through all 13 entry points)".into());
     rep.wall_s = t0.elapsed().as_secs_f64();
     vec![rep]
@@ -359,6 +405,10 @@ pub fn child_dispatch(spec: &str) {
         let cs = isolate::parse_spec(spec);
         let input = std::fs::read_to_string(path).unwrap_or_default();
         let facts = Facts::new();
+        facts.set("x", Value::Integer(3));
+        facts.set("Order.quantity", Value::Integer(2));
+        facts.set("Order.price", Value::Number(1.5));
+        set_arith_facts(&facts);
         isolate::child_loop(&cs, 8, |_k| {
             let mut panics = vec![];
             for s in 0..SUBJECTS.len() {
